@@ -23,6 +23,9 @@ pub enum FrameSpec {
     TpktX224(u16),
     /// raw bytes
     Raw(Vec<u8>),
+    /// not a frame stream: a full real conversation over TLS (NLA on/off) whose transport delivers at most
+    /// `cap` bytes per read (Plan::Cap) — end-to-end fragmentation through OpenSSL, CredSSP and every layer
+    Conversation(bool),
 }
 
 #[derive(Clone, Debug, Serialize)]
@@ -61,6 +64,7 @@ pub fn frame_bytes(f: &FrameSpec, salt: u8) -> Vec<u8> {
         }
         FrameSpec::TpktX224(n) => framing::tpkt(&framing::x224_dt(&coded(*n as usize, salt))),
         FrameSpec::Raw(b) => b.clone(),
+        FrameSpec::Conversation(_) => vec![0],
     }
 }
 
@@ -109,7 +113,7 @@ fn header_len(f: &FrameSpec) -> usize {
         FrameSpec::Tpkt(_) | FrameSpec::TpktX224(_) => 4,
         FrameSpec::FpShort(..) => 2,
         FrameSpec::FpLong(..) => 3,
-        FrameSpec::Raw(_) => 0,
+        FrameSpec::Raw(_) | FrameSpec::Conversation(_) => 0,
     }
 }
 
@@ -206,6 +210,12 @@ impl Prop for C13 {
         for bad in [vec![3u8, 0, 0, 6, 2, 0xf0], vec![3, 0, 0, 7, 2, 0xf0, 0x00], vec![3, 0, 0, 4]] {
             cs.push(Case { frames: vec![FrameSpec::Raw(bad), FrameSpec::TpktX224(1)], plan: Plan::All, via_x224: true });
         }
+        // F: whole conversations under fragmented delivery
+        for nla in [true, false] {
+            for k in [1usize, 2, 3, 5, 7, 16, 1000] {
+                cs.push(Case { frames: vec![FrameSpec::Conversation(nla)], plan: Plan::Cap(k), via_x224: false });
+            }
+        }
         self.cases = cs;
         Ok(())
     }
@@ -217,7 +227,7 @@ impl Prop for C13 {
         json!({"idx": idx, "case": c, "stream_len": stream_of(c).len()})
     }
     fn rule(&self) -> String {
-        "cases = (three-frame stream, read schedule); streams enumerate every TPKT length field 0..65535, every short fast-path length x every first byte, every 15-bit long-form length; schedules enumerate caps {1,2,3,4,5,7,1500}, every single split offset, all pairs of splits inside the first two headers, and all 2^(n-1) compositions of short streams. Non-trivial: first frame has an empty payload, or declares a length below its own header, or at least one split point falls inside a frame header.".into()
+        "cases = (three-frame stream, read schedule); streams enumerate every TPKT length field 0..65535, every short fast-path length x every first byte, every 15-bit long-form length; schedules enumerate caps {1,2,3,4,5,7,1500}, every single split offset, all pairs of splits inside the first two headers, and all 2^(n-1) compositions of short streams. Additionally 14 full real conversations over TLS (NLA on/off, with a reactivation, inputs and shutdown) are run with the transport delivering at most k bytes per read for k in {1,2,3,5,7,16,1000}. Non-trivial: first frame has an empty payload, or declares a length below its own header, or at least one split point falls inside a frame header.".into()
     }
     fn assumptions(&self) -> Vec<String> {
         vec![
@@ -231,6 +241,21 @@ impl Prop for C13 {
     }
     fn run_case(&mut self, idx: u64) -> Outcome {
         let c = self.cases[idx as usize].clone();
+        if let FrameSpec::Conversation(nla) = c.frames[0] {
+            let cap = match c.plan {
+                Plan::Cap(k) => k,
+                _ => 1,
+            };
+            let cfg = crate::tls::ConnCfg { use_nla: nla, ..Default::default() };
+            let p = crate::peer::ServerParams { selected: if nla { 2 } else { 1 }, reactivations: 1, ..Default::default() };
+            return match crate::wire::converse_fragmented(&cfg, &p, crate::tls::Cert::A, true, ReadPlan::Cap(cap), crate::memlink::WritePlan::All) {
+                Err(e) => Outcome::fail("setup", "machinery", e),
+                Ok(t) => match crate::wire::check_c03(&t) {
+                    Some(f) => Outcome::fail("mismatch", format!("conversation-fails-under-fragmented-delivery: {}", f.sig), format!("read cap {}: {}", cap, f.detail)),
+                    None => Outcome::pass("conversation-under-fragmentation", true),
+                },
+            };
+        }
         let stream = stream_of(&c);
         let link = MemLink::scripted(&stream);
         link.sh.borrow_mut().read_plan = plan_of(&c.plan, stream.len());
